@@ -9,6 +9,7 @@ Isolation between topics (a message of topic a never reaches a subscriber of top
 in `Props/C11.lean`: each name owns its own router state.
 -/
 import SeliumModel.Lemmas.PubSubHealthy
+import SeliumModel.Lemmas.PubSubOrder
 
 namespace Selium.Route
 open Selium.Sink
@@ -55,10 +56,46 @@ theorem c01_delivered_and_flushed (history : List (Event α)) (fuel : Nat) (orac
   simp only [Option.toList, List.append_nil] at this
   exact ⟨this, hq.2 k hk⟩
 
+/-- Publisher order. For every reachable router state and every publisher stream the topic ever adopted (live or
+    already gone): the items accepted from it are, in the order accepted, a prefix of the items it held when it
+    was adopted — nothing from one publisher is reordered, duplicated or skipped on the way into the router,
+    whatever `StreamMap`'s random starts, its `swap_remove` reshuffling and the Pending answers were. For a
+    stream that is still live, what was accepted followed by what it still holds is exactly what it came with. -/
+theorem c01_publisher_order (history : List (Event α)) :
+    (∀ sid, fromPub (exec history).accepted (exec history).src sid <+:
+              itemsOf ((exec history).scripts[sid]?.getD [])) ∧
+    (∀ st ∈ (exec history).streams,
+        fromPub (exec history).accepted (exec history).src st.id ++ itemsOf st.script =
+          itemsOf ((exec history).scripts[st.id]?.getD [])) := by
+  have h := exec_pub history
+  exact ⟨h.2.2.2.2.2, h.2.2.2.2.1⟩
+
+/-- What a subscriber observes of any one publisher: the items it was handed (plus the one buffered for it) that
+    came from publisher `sid` form one contiguous run of that publisher's sequence, in that publisher's order —
+    the run that starts where the subscriber's registration was processed. -/
+theorem c01_subscriber_sees_publisher_run (history : List (Event α)) (sid : Nat) :
+    ∀ k ∈ (exec history).sinks, ∃ before,
+      before ++ fromPub (k.got ++ (exec history).buffered.toList) ((exec history).src.drop k.regAt) sid <+:
+        itemsOf ((exec history).scripts[sid]?.getD []) := by
+  intro k hk
+  have hp := exec_pub history
+  have hi := (c01_exactly_once_in_order history).1 k hk
+  refine ⟨fromPub ((exec history).accepted.take k.regAt) ((exec history).src.take k.regAt) sid, ?_⟩
+  rw [hi.2, ← fromPub_append _ _ _ _ _ (by simp [hp.1]), List.take_append_drop, List.take_append_drop]
+  exact hp.2.2.2.2.2 sid
+
 /-! Non-vacuity: a concrete run — two subscribers (one not ready at first), one publisher with two items. -/
 def exHistory : List (Event Nat) :=
   [.enqueue (.sink { id := 0, readyQ := [.pending] }), .enqueue (.sink { id := 0 }),
    .enqueue (.stream [.item 7, .item 8]), .poll 20 [], .poll 20 [], .poll 20 []]
+
+def exHistory2 : List (Event Nat) :=
+  [.enqueue (.stream [.item 1, .pending, .item 2]), .enqueue (.stream [.pending, .item 10, .item 11]),
+   .enqueue (.sink { id := 0 }), .poll 20 [1, 0], .poll 20 [0, 1], .poll 20 [1], .poll 20 []]
+
+example : (exec exHistory2).accepted = [1, 10, 2, 11] ∧ (exec exHistory2).src = [0, 1, 0, 1] ∧
+    fromPub (exec exHistory2).accepted (exec exHistory2).src 0 = [1, 2] ∧
+    fromPub (exec exHistory2).accepted (exec exHistory2).src 1 = [10, 11] := by decide +kernel
 
 example : (exec exHistory).accepted = [7, 8] ∧ (exec exHistory).sinks.map (·.got) = [[7, 8], [7, 8]] ∧
     (exec exHistory).sinks.map (·.flushed) = [2, 2] ∧ (exec exHistory).buffered = none := by decide +kernel
@@ -69,3 +106,5 @@ end Selium.Route
 #print axioms Selium.Route.c01_poll_preserves
 #print axioms Selium.Route.c01_nothing_left_behind
 #print axioms Selium.Route.c01_delivered_and_flushed
+#print axioms Selium.Route.c01_publisher_order
+#print axioms Selium.Route.c01_subscriber_sees_publisher_run
